@@ -63,12 +63,20 @@ func vfPut(s Swamp, key string, exp *time.Time) {
 func VerifC30Expiry(h *verifrt.H) {
 	h.BackgroundLowPriority(true)
 	s := vfMem(h, nil)
-	e := h.Int64("expiry")
-	et := time.Unix(0, e).UTC()
 	warm := h.Choose("indexBuiltBeforeWrite", 2) == 1
 	if warm {
 		s.GetTreasuresByBeacon(BeaconTypeExpirationTime, IndexOrderAsc, 0, 10, nil, nil)
 	}
+	want := c30write(h, s)
+	c30check(h, s, want)
+	h.Cover("end")
+}
+
+// c30write sets the expiry of record "k" to a symbolic instant through one of the four write
+// paths and returns the expiry (UnixNano, 0 = none) the record must carry afterwards.
+func c30write(h *verifrt.H, s Swamp) int64 {
+	e := h.Int64("expiry")
+	et := time.Unix(0, e).UTC()
 	want := e
 	switch h.Choose("setPath", 4) {
 	case 0:
@@ -88,6 +96,12 @@ func VerifC30Expiry(h *verifrt.H) {
 		h.Assert(err == nil && r.Status == PatchStatusPatched, "patch-meta-clear-ok")
 		want = 0
 	}
+	return want
+}
+
+// c30check reads record "k" through every expiry-aware path of the swamp and compares each
+// verdict with "want != 0 && want < now".
+func c30check(h *verifrt.H, s Swamp, want int64) {
 	n0 := time.Now().UTC().UnixNano()
 	tr, err := s.GetTreasure("k")
 	h.Assert(err == nil, "record-present")
@@ -118,6 +132,24 @@ func VerifC30Expiry(h *verifrt.H) {
 		h.Assert(!expired, "no-or-future-expiry-is-not-expired")
 		h.Assert(!claimed, "no-or-future-expiry-is-not-claimable")
 	}
+}
+
+// VerifC30Reload: the same four write paths on a PERSISTENT swamp (real chronicler V2 on the
+// file-system model, immediate-write and interval mode); the swamp is closed and summoned again
+// from its file, and only then read through every expiry-aware path: the reloaded record carries
+// the expiry that was set / slid / cleared, and IsExpired, the expiry index (always a cold build
+// here), expired-shift and expired-patch agree with it.
+func VerifC30Reload(h *verifrt.H) {
+	h.BackgroundLowPriority(true)
+	dir := h.TempDir() + "/sw"
+	wi := time.Duration(h.Choose("immediateWrite", 2)) * time.Second // 0 = immediate-write mode
+	s := vfPersist(h, dir, time.Second-wi, nil)
+	want := c30write(h, s)
+	s.Close()
+	r := vfPersist(h, dir, time.Second, nil)
+	h.Cover("reloaded")
+	c30check(h, r, want)
+	r.Close()
 	h.Cover("end")
 }
 
